@@ -134,6 +134,10 @@ def _judge(case, A, real, drv_thin, drv_euler, drv_hull):
             f.append(dict(kind='property', key=f'fill_convexhull:{dt}-input',
                           detail=dict(input=data, dtype=str(A.dtype), got=[int(v) for v in fl.ravel().tolist()],
                                       what='not a superset of the input')))
+        elif dt == 'bool' and 'fill' in drv_hull and [int(v) for v in fl.ravel().tolist()] != core.ints(drv_hull['fill']):
+            # the filled content is not fixed by the statement: correspondence only (non-bool inputs: open known finding)
+            f.append(dict(kind='model', key='fill-model',
+                          detail=dict(input=data, got=[int(v) for v in fl.ravel().tolist()], model=drv_hull['fill'])))
     if real['modified']:
         f.append(dict(kind='property', key='input-modified', detail={}))
     return f
